@@ -222,7 +222,8 @@ def run_ddsmt(workdir,
               reader=False,
               argv_prefix=None,
               stop_when=None,
-              cc_same_basename=False):
+              cc_same_basename=False,
+              infile_link_target=None):
     """Run the real ddSMT once.  ``spec``/``cc_spec``: list of rule lines.
     ``launcher``: None (the real executable) or a vlaunch config dict.
     ``entry``: 'bin' (bin/ddsmt) or 'module' (python -m ddsmt).
@@ -234,8 +235,19 @@ def run_ddsmt(workdir,
     outfile = os.path.join(workdir, outfile_name or ('out' + ext))
     data = input_bytes if input_bytes is not None else input_text.encode(
         'utf-8')
-    with open(infile, 'wb') as f:
-        f.write(data)
+    if infile_link_target:
+        # the input file the user names is a symbolic link (as content
+        # addressed stores make them); its target has another name
+        real = os.path.join(workdir, infile_link_target)
+        os.makedirs(os.path.dirname(real), exist_ok=True)
+        with open(real, 'wb') as f:
+            f.write(data)
+        if os.path.lexists(infile):
+            os.unlink(infile)
+        os.symlink(real, infile)
+    else:
+        with open(infile, 'wb') as f:
+            f.write(data)
     if pre_outfile is not None:
         with open(outfile, 'wb') as f:
             f.write(pre_outfile)
